@@ -24,9 +24,14 @@ def rule_R1_evaluated(ctx, prj) -> bool:
               (24, "Comment.Special", "#!x"), (27, "Operator", "+"), (28, "Other", "?"), (29, "Text", "\n"), (30, "Comment.Preproc", "  define X "),
               (41, "Literal.String", " s ")]
     code = "# c\ndef f(/* m */)' '\n  #!x+?\n  define X  s "
+    multi = (tuples, code)
+    # a source that is one line without any line break (a one-liner pasted into a file, no final newline)
+    single = ([(0, "Keyword", "void"), (4, "Text", " "), (5, "Name", "f"), (6, "Punctuation", "("), (7, "Punctuation", ")"), (8, "Text", " "),
+               (9, "Punctuation", "{"), (10, "Punctuation", "}"), (11, "Text", " "), (12, "Comment.Multiline", "/* nocl */")],
+              "void f() {} /* nocl */")
     ok = True
-    for val in (True, False, None):
-        def hook(it, kind, f, args, kwargs, node, cur):
+    for (tuples, code), val in [(multi, True), (multi, False), (multi, None), (single, True), (single, False), (single, None)]:
+        def hook(it, kind, f, args, kwargs, node, cur, tuples=tuples):
             if kind == "call" and isinstance(f, tuple) and f and f[0] == "method" and f[2] == "get_tokens_unprocessed":
                 return [(o, PygT(k), t) for o, k, t in tuples]
             if kind == "call" and isinstance(f, tuple) and f and f[0] == "method" and f[2] == "get_tokens":
@@ -40,7 +45,7 @@ def rule_R1_evaluated(ctx, prj) -> bool:
         d = fi.param_default("filter_comments")
         eff = val if val is not None else it.ev(d, {}, fi)
         want = [t for o, k, t in tuples if not (k.startswith("Text") and not t.strip()) and not (k.startswith("Comment") and eff)]
-        key = f"lex/filter_comments={val if val is not None else 'default'}"
+        key = f"lex/filter_comments={val if val is not None else 'default'}" + ("" if tuples is multi[0] else "/text without a line break")
         if got == want:
             ctx.ok("R1", fi.site(), f"{key}: of {len(tuples)} lexer tuples lex keeps {got}")
             continue
